@@ -53,14 +53,28 @@ claim('C15', 'proof', K1 + '; ' + K2,
 claim('C20', 'proof', K1 + '; ' + K2 + '; ' + GR,
       'prel31; index entry classification and byte-code unpacking (all models, unbounded word loop); byte-code disassembler: every 1- and 2-byte instruction enumerated exhaustively against the EHABI 9.3 table; attribute value kinds per tag (ARM, RISC-V) incl. number lists by loop invariant; subsection and sub-subsection walkers by displacement with interference at yields',
       'ULEB operand of opcode 0xb2 and instruction sequences are bounded stand-ins (reported separately); _make_attributes walker and mnemonic text have no independent oracle')
-for _p, _t in (('C04', 'unit headers (v2-v5, every unit type), abbreviation declaration incl. implicit_const, the full form table per (format, address size, version)'),
-               ('C05', 'line program header (v2-v5 incl. entry formats), file entries, form table'),
-               ('C06', 'CIE (v1/3/4) and FDE headers'),
-               ('C07', 'v5 list unit headers, every DW_LLE/DW_RLE entry layout, counted location description, locview pair'),
-               ('C11', 'debuglink (padding lambda proved), debugsup, debugaltlink structs; Section.data/Section.__init__ (gABI compression) K1')):
-    claim(_p, 'proof', K2 + ('; ' + K1 if _p == 'C11' else ''),
-          'structure obligations only so far: ' + _t + ' compared with the DWARF standard layouts over the complete (byte order, format, address size, version) space incl. struct cache behaviour; native differential replay',
-          'the walkers/state machines of this property are NOT yet under K1 contract (listed in DESIGN section 11); Sem of construct node kinds assumed')
+BD = 'bounded differential against an independent specification encoder/interpreter (labelled bounded, never counted as proved)'
+claim('C04', 'proof', K1 + '; ' + K2 + '; ' + BD,
+      'K2: unit headers (v2-v5, every unit type), abbreviation declarations incl. implicit_const and the full form table per (format, address size, version) equal the DWARF layouts over the complete configuration space. K1 (all inputs): the per-unit entry cache (get_top_DIE, _get_cached_DIE: sorted, duplicate free, entry i is the entry at offset i), lookups by offset (CompileUnit.get_DIE_from_refaddr returns the entry at the designated offset, rejects offsets outside the unit), children iteration proved against the structural tree specification (k-th child follows the whole subtree of the previous; the null entry becomes the parent\'s terminator; DW_AT_sibling shortcuts in unit-relative and section-relative forms give the same offsets on well-formed input)',
+      'the parse of one entry (DIE.__init__/_parse_DIE/_resolve_indirect/_translate_attr_value) is an ASSUMED contract at the cache\'s call sites and is covered only by the bounded differential (generated sections: 1-3 units of mixed parameters, every form valid for the version incl. nested DW_FORM_indirect, trees of depth <= 4), as are _iter_DIE_subtree, get_parent and DWARFInfo.get_DIE_from_refaddr/get_DIE_by_sig8; termination of the recursive children walk not proved; Sem of construct node kinds assumed')
+claim('C05', 'proof', K1 + '; ' + K2 + '; ' + BD,
+      'K1 (all inputs): step refinement of LineProgram._decode_line_program against the DWARF 6.2.5 state machine: after every iteration each register, the emitted row and the next instruction offset are what the specification prescribes (special, standard incl. unknown standard opcodes skipped by standard_opcode_lengths, extended opcodes, VLIW op_index); K2: line program header v2-v5 incl. entry formats, file entries, form table',
+      'header/extent handling in DWARFInfo._parse_line_program_at_offset and the v5 directory/file tables are covered by the bounded differential only; the fold over the whole program follows from the step lemma by induction on the loop (composition argument in DESIGN 4, not machine checked); one recorded known finding (is_stmt of the end_sequence row)')
+claim('C06', 'proof', K1 + '; ' + K2 + '; ' + BD,
+      'K2: CIE (v1/3/4) and FDE headers over every configuration; K1: CIE lookup for an FDE (_parse_cie_for_fde: pointer arithmetic for .debug_frame and .eh_frame, cache), instruction naming; bounded differential: entry walk, every CFA opcode x configuration, pointer encodings, augmentation, and the decoded table incl. register order against a DWARF 6.4.2 interpreter',
+      '_parse_entry_at is an assumed contract at the K1 call site; _parse_instructions and _decode_CFI_table are covered by the bounded differential only')
+claim('C07', 'proof', K1 + '; ' + K2,
+      'K2: v5 list unit headers, every DW_LLE/DW_RLE entry layout, counted location description, locview pair. K1 (all inputs): pre-v5 range and location list walks return exactly the encoded entries up to the (0,0) terminator (kind, begin/end or base address, expression bytes, offset, length); every v5 entry translator and the translation of a whole v5 list (map rule, table dispatch proved per kind) with indexed addresses resolved through the unit\'s address table (get_addr checked); access by section offset and by index through the offset table (entry width from the unit\'s format); unit blocks of the v5 sections and the raw lists of a block; location view pairs; section pair dispatch by unit version; attribute classification',
+      'iter_range_lists / iter_location_lists (enumeration by scanning the debugging entries) and iter_CUs of the list classes are not under contract; DIE.__init__ assumed for the root entry that carries the base attributes; decoded v5 entries are the K1 abstraction of the K2-checked layout (count/fields as functions of bytes and offset)')
+claim('C10', 'proof', K1 + '; ' + BD,
+      'lazily built caches are representation fields with object invariants: only their owner functions touch them (enforced by the verifier), every owner re-establishes the invariant at exit and at every yield, and owners\' results are functions of (section bytes, arguments) whatever the cache holds (unit cache: _cached_CU_at_offset, get_CU_at, get_CU_containing, _parse_CUs_iter with interference at yields; entry cache: get_top_DIE, _get_cached_DIE, get_DIE_from_refaddr, iter_DIE_children); stream positions are havocked at every call and yield in all K1 contracts, so every proved postcondition holds for any position the previous query left',
+      'the whole-history statement (any finite sequence of queries) follows from per-operation invariant preservation by induction over the history; that induction is not machine checked. Section-name and symbol-name maps, abbreviation and line-program caches, decoded call-frame tables are covered only by the bounded history differentials (entry queries, call-frame decode orders)')
+claim('C11', 'proof', K2 + '; ' + K1,
+      'debuglink (padding lambda proved), debugsup, debugaltlink structs K2; Section.data/Section.__init__ (gABI compression: header, size check, zlib) K1',
+      'get_dwarf_info / _read_dwarf_section / _decompress_dwarf_section / supplementary-file following and _file_crc32 are NOT yet under contract; zlib assumed; Sem of construct node kinds assumed')
+claim('C12', 'proof', K2 + '; ' + BD,
+      'dispatch table of the expression parser: for every DW_OP code the registered parser reads exactly the operand kinds DWARF v5 7.7.1 / GNU extensions prescribe (closure analysis of the real table + replay of each parser on concrete operands); the name map is the inverse of the code map',
+      'parse_expr loop itself (offset bookkeeping, caching) is covered by a bounded sample of expressions; wasm/GNU entry-value nesting sampled')
 
 NOT_YET = 'not yet built in this round (DESIGN.md section 9 gives the order of work)'
 NA = {
